@@ -1,3 +1,517 @@
-/- C17 property theorems (not written yet) -/
+/-
+C17 — content negotiation picks a best-quality, most-specific offer.
+Property theorems only (helper lemmas live in Lemmas/Accept.lean).
+
+The generic theorems hold for every `Neg σ κ` (any specificity function, any match relation) whose
+two `≤` relations are total preorders; they are then instantiated for the four werkzeug classes.
+-/
+import WzVerif.Lemmas.Accept
+import WzVerif.Gen.AcceptTbl
 namespace Wz.Props.C17
+open Wz Wz.Accept
+
+variable {σ κ : Type}
+
+/-! ## tables regenerated from the live code -/
+
+/-- one row of `Gen.AcceptTbl.qTable`: the model's `parse_accept_header("a;q=" + s)` equals what
+the live function returned (no item, or the item `a` with that normalised q) -/
+def qRowAgrees (e : Str × Option (Nat × Nat)) : Bool :=
+  ((parseAcceptRaw (['a', ';', 'q', '='] ++ e.1)).toOption.map fun l =>
+      l.map fun it => (it.1, it.2.norm.num, it.2.norm.scale))
+    == some (match e.2 with
+      | none => []
+      | some (n, s) => [(['a'], n, s)])
+
+/-- The live `parse_accept_header` (with the live `_q_value_re`, `float` and range check) and the
+model agree on every q text of length ≤ 4 over the alphabet `-.015x` — 1554 strings, including
+all the malformed, negative and `> 1` shapes of the property (`decide` over the regenerated table;
+an edit of the regex or of a comparison in the range check changes a row). -/
+theorem q_table_agrees : Gen.AcceptTbl.qTable.all qRowAgrees = true := by decide +kernel
+
+def tblAt (t : List Bool) (n : Nat) : Bool := t.getD n false
+
+/-- The live `_locale_delim_re` and `_mime_split_re` accept exactly the single characters the model
+splits on (`_`/`-`; `/`/`;`), and the whitespace `_mime_split_re` absorbs around `;` is the model's. -/
+theorem delimiter_tables_agree :
+    ∀ n, n < 256 →
+      tblAt Gen.AcceptTbl.langDelim n = isLangDelim (Char.ofNat n) ∧
+      tblAt Gen.AcceptTbl.mimeDelim n = (n == 47 || n == 59) ∧
+      tblAt Gen.AcceptTbl.mimeWs n = Py.isSpace (Char.ofNat n) := by
+  decide +kernel
+
+/-! ## parsing: order of the parsed items -/
+
+/-- `Accept.__init__` neither drops nor invents client items. -/
+theorem parse_perm (N : Neg σ κ) (values : List (Str × κ)) : (mk N values).Perm values :=
+  sortDesc_perm _ _
+
+/-- The parsed list is sorted descending by `(specificity, q)`: every earlier item is at least as
+specific as every later one, and among equally specific items has at least its quality. -/
+theorem parse_sorted (N : Neg σ κ) (hs : TotalPre N.sle) (hq : TotalPre N.qle)
+    (values : List (Str × κ)) :
+    (mk N values).Pairwise fun x y =>
+      N.sle (N.spec y.1) (N.spec x.1) = true ∧
+      (N.sle (N.spec x.1) (N.spec y.1) = true → N.qle y.2 x.2 = true) := by
+  refine (sortDesc_sorted (keyGe N) (keyGe_totalPre N hs hq) values).imp ?_
+  intro x y h
+  simp only [keyGe] at h
+  have t := hs.total (N.spec x.1) (N.spec y.1)
+  cases c1 : N.sle (N.spec x.1) (N.spec y.1) <;> simp_all
+
+/-- Parsing keeps the client's order among items of equal specificity and quality: the subsequence
+of items whose specificity is equivalent to `s` and whose quality is equivalent to `q` is the same
+before and after `Accept.__init__`. -/
+theorem parse_order_stable (N : Neg σ κ) (hs : TotalPre N.sle) (hq : TotalPre N.qle)
+    (values : List (Str × κ)) (s : σ) (q : κ) :
+    let same := fun (x : Str × κ) =>
+      N.sle (N.spec x.1) s && N.sle s (N.spec x.1) && N.qle x.2 q && N.qle q x.2
+    (mk N values).filter same = values.filter same := by
+  intro same
+  apply sortDesc_filter
+  intro a b ha hb
+  simp only [same, Bool.and_eq_true] at ha hb
+  simp only [keyGe]
+  have h1 := hs.trans _ _ _ hb.1.1.1 ha.1.1.2
+  have h2 := hq.trans _ _ _ hb.1.2 ha.2
+  simp [h1, h2]
+
+example : (mk acceptNeg [("a".toList, ⟨5, 1⟩), ("*".toList, ⟨1, 0⟩), ("b".toList, ⟨50, 2⟩),
+      ("c".toList, ⟨9, 1⟩)]).map (·.1)
+    = ["c".toList, "a".toList, "b".toList, "*".toList] := by decide
+
+/-! ## lookup of one offer -/
+
+/-- `_best_single_match` on the sorted list returns a client item that matches the offer and is
+the most specific matching one — and, among equally specific matching items, one of highest
+quality. This is "the quality of an offer" of the property text. -/
+theorem sorted_first_match_most_specific (N : Neg σ κ) (hs : TotalPre N.sle) (hq : TotalPre N.qle)
+    (values : List (Str × κ)) (offer : Str) (x : Str × κ)
+    (h : bestSingle N (mk N values) offer = some x) :
+    x ∈ values ∧ N.matches offer x.1 = true ∧
+    ∀ y ∈ values, N.matches offer y.1 = true →
+      N.sle (N.spec y.1) (N.spec x.1) = true ∧
+      (N.sle (N.spec x.1) (N.spec y.1) = true → N.qle y.2 x.2 = true) := by
+  have hk := keyGe_totalPre N hs hq
+  refine ⟨(mem_sortDesc _).mp (List.mem_of_find?_eq_some h), by simpa using List.find?_some h, ?_⟩
+  intro y hy hm
+  have := find_sorted_max (keyGe N) (fun it => N.matches offer it.1) (mk N values)
+    (sortDesc_sorted _ hk values) hk.refl x h y ((mem_sortDesc _).mpr hy) hm
+  simp only [keyGe] at this
+  have t := hs.total (N.spec x.1) (N.spec y.1)
+  cases c1 : N.sle (N.spec x.1) (N.spec y.1) <;> simp_all
+
+example : bestSingle mimeNeg (mk mimeNeg [("text/*".toList, ⟨9, 1⟩), ("text/html".toList, ⟨2, 1⟩),
+      ("*/*".toList, ⟨5, 1⟩)]) "text/html".toList = some ("text/html".toList, ⟨2, 1⟩) := by decide
+
+/-- An offer has no quality (`quality()` returns 0, `find` -1, `in` False) exactly when no client
+item matches it. -/
+theorem no_match_iff (N : Neg σ κ) (values : List (Str × κ)) (offer : Str) :
+    bestSingle N (mk N values) offer = none ↔ ∀ y ∈ values, N.matches offer y.1 = false := by
+  simp only [bestSingle, List.find?_eq_none, mk]
+  constructor
+  · intro h y hy
+    simpa using h y ((mem_sortDesc _).mpr hy)
+  · intro h y hy
+    simpa using h y ((mem_sortDesc _).mp hy)
+
+/-- `quality`, `find` and `__contains__` agree with `_best_single_match`. -/
+theorem quality_find_contains (N : Neg σ κ) (self : List (Str × κ)) (key : Str) :
+    (quality N self key = none ↔ bestSingle N self key = none) ∧
+    (find N self key = none ↔ bestSingle N self key = none) ∧
+    (contains N self key = false ↔ bestSingle N self key = none) := by
+  refine ⟨by simp [quality], ?_, ?_⟩
+  · simp [find, bestSingle, List.findIdx?_eq_none_iff, List.find?_eq_none]
+  · simp [contains, bestSingle, List.find?_eq_none]
+
+/-! ## the selection loop -/
+
+/-- `best_match` returns an offer `r` (at some position `pre ++ r :: post`) whose quality `q` is
+positive and the highest among all offers; among the offers of that same quality its matched range
+is the most specific; and every earlier offer is strictly worse (lower quality, or the same quality
+with a strictly less specific range) — so ties go to the earlier offer. -/
+theorem bestMatch_optimal (N : Neg σ κ) (hs : TotalPre N.sle) (hq : TotalPre N.qle)
+    (self : List (Str × κ)) (offers : List Str) (r : Str)
+    (h : bestMatch N self offers = some r) :
+    ∃ pre post ci q, offers = pre ++ r :: post ∧ bestSingle N self r = some (ci, q) ∧
+      N.qle q N.zero = false ∧
+      (∀ o ∈ offers, ∀ ci' q', bestSingle N self o = some (ci', q') →
+          N.qle q' q = true ∧ (N.qle q q' = true → N.sle (N.spec ci') (N.spec ci) = true)) ∧
+      (∀ o ∈ pre, ∀ ci' q', bestSingle N self o = some (ci', q') →
+          N.qle q q' = true → N.sle (N.spec ci) (N.spec ci') = false) := by
+  have hr := rankGe_totalPre N hs hq
+  unfold bestMatch at h
+  rw [bestMatch_eq_argmax] at h
+  rcases argmax_from_none (offerScore N self) (rankGe N) hr offers with ⟨hn, _⟩ | ⟨r', s, pre, post, hres, hl, hsr, hpre, hpost⟩
+  · rw [hn] at h; cases h
+  · rw [hres] at h
+    simp only [Option.map_some, Option.some.injEq] at h
+    subst h
+    obtain ⟨q, sp⟩ := s
+    -- unpack the score of r'
+    have hsr' := hsr
+    unfold offerScore at hsr'
+    cases hb : bestSingle N self r' with
+    | none => rw [hb] at hsr'; cases hsr'
+    | some m =>
+      obtain ⟨ci, q0⟩ := m
+      rw [hb] at hsr'
+      simp only at hsr'
+      split at hsr'
+      · cases hsr'
+      · rename_i hpos
+        simp only [Option.some.injEq, Prod.mk.injEq] at hsr'
+        obtain ⟨rfl, rfl⟩ := hsr'
+        have hpos : N.qle q0 N.zero = false := by simpa using hpos
+        have h0q : N.qle N.zero q0 = true := by
+          cases hq.total N.zero q0 with
+          | inl x => exact x
+          | inr x => rw [x] at hpos; cases hpos
+        -- the score of an arbitrary offer
+        have hscore : ∀ o ci' q', bestSingle N self o = some (ci', q') →
+            (N.qle q' N.zero = true ∧ offerScore N self o = none) ∨
+            (offerScore N self o = some (q', N.spec ci')) := by
+          intro o ci' q' ho
+          unfold offerScore
+          rw [ho]
+          cases c : N.qle q' N.zero <;> simp [c]
+        refine ⟨pre, post, ci, q0, hl, rfl, hpos, ?_, ?_⟩
+        · intro o ho ci' q' hbo
+          rcases hscore o ci' q' hbo with ⟨hle0, _⟩ | hsc
+          · have h1 := hq.trans _ _ _ hle0 h0q
+            refine ⟨h1, ?_⟩
+            intro h2
+            rw [hq.trans _ _ _ h2 hle0] at hpos; cases hpos
+          · rw [hl] at ho
+            rcases List.mem_append.mp ho with ho | ho
+            · have := hpre o ho _ hsc
+              simp only [rankGe] at this
+              have t1 := hq.total q' q0
+              have t2 := hs.total (N.spec ci') (N.spec ci)
+              cases c1 : N.qle q' q0 <;> cases c2 : N.qle q0 q' <;>
+                cases c3 : N.sle (N.spec ci) (N.spec ci') <;> simp_all
+            · rcases List.mem_cons.mp ho with rfl | ho
+              · rw [hb] at hbo
+                simp only [Option.some.injEq, Prod.mk.injEq] at hbo
+                obtain ⟨rfl, rfl⟩ := hbo
+                exact ⟨hq.refl _, fun _ => hs.refl _⟩
+              · have := hpost o ho _ hsc
+                simp only [rankGe] at this
+                have t1 := hq.total q' q0
+                cases c1 : N.qle q' q0 <;> cases c2 : N.qle q0 q' <;> simp_all
+        · intro o ho ci' q' hbo hqq
+          rcases hscore o ci' q' hbo with ⟨hle0, _⟩ | hsc
+          · rw [hq.trans _ _ _ hqq hle0] at hpos; cases hpos
+          · have := hpre o ho _ hsc
+            simp only [rankGe] at this
+            cases c1 : N.qle q' q0 <;> cases c3 : N.sle (N.spec ci) (N.spec ci') <;> simp_all
+
+example : bestMatch mimeNeg (mk mimeNeg [("text/*".toList, ⟨9, 1⟩), ("text/html".toList, ⟨2, 1⟩),
+      ("*/*".toList, ⟨5, 1⟩)]) ["image/png".toList, "text/html".toList, "text/plain".toList]
+    = some "text/plain".toList := by decide
+
+/-- `best_match` returns the default exactly when no offer has positive quality, i.e. an offer that
+no range matches, or whose most specific range has `q = 0`, is never chosen — and some offer is
+chosen whenever one has positive quality. -/
+theorem bestMatch_none_iff (N : Neg σ κ) (hs : TotalPre N.sle) (hq : TotalPre N.qle)
+    (self : List (Str × κ)) (offers : List Str) :
+    bestMatch N self offers = none ↔
+      ∀ o ∈ offers, ∀ ci q, bestSingle N self o = some (ci, q) → N.qle q N.zero = true := by
+  have hr := rankGe_totalPre N hs hq
+  have hsc : ∀ o, offerScore N self o = none ↔
+      ∀ ci q, bestSingle N self o = some (ci, q) → N.qle q N.zero = true := by
+    intro o
+    unfold offerScore
+    cases hb : bestSingle N self o with
+    | none => simp
+    | some m =>
+      obtain ⟨ci, q⟩ := m
+      cases c : N.qle q N.zero <;> simp [c]
+  unfold bestMatch
+  rw [bestMatch_eq_argmax]
+  rcases argmax_from_none (offerScore N self) (rankGe N) hr offers with ⟨hn, hall⟩ | ⟨r', s, pre, post, hres, hl, hsr, _, _⟩
+  · rw [hn]
+    simp only [Option.map_none, true_iff]
+    intro o ho
+    exact (hsc o).mp (hall o ho)
+  · rw [hres]
+    simp only [Option.map_some, reduceCtorEq, false_iff]
+    intro hall
+    have := (hsc r').mpr (hall r' (by rw [hl]; simp))
+    rw [this] at hsr; cases hsr
+
+example : bestMatch acceptNeg (mk acceptNeg [("gzip".toList, Q.zero), ("*".toList, ⟨5, 1⟩)])
+    ["gzip".toList] = none := by decide
+
+/-! ## q values -/
+
+/-- A q that passes `_q_value_re` and the range check lies in `[0, 1]`, and a q written with a
+minus sign is only accepted when it is `-0`. -/
+theorem parseQ_range (s : Str) (q : Q) (h : parseQ s = some q) :
+    q.num ≤ 10 ^ q.scale ∧ (s.head? = some '-' → q.num = 0) := by
+  unfold parseQ at h
+  split at h
+  rename_i neg body hnb
+  simp only at h
+  split at h
+  · cases h
+  · split at h
+    · cases h
+    · rename_i fr _
+      split at h
+      · cases h
+      · split at h
+        · rename_i hneg hle
+          simp only [Option.some.injEq] at h
+          subst h
+          refine ⟨by simpa [Q.le, Q.one] using hle, ?_⟩
+          intro hd
+          have : neg = true := by
+            split at hnb
+            · simp only [Prod.mk.injEq] at hnb; exact hnb.1.symm
+            · rename_i hne
+              cases s with
+              | nil => simp at hd
+              | cons c t =>
+                simp only [List.head?_cons, Option.some.injEq] at hd
+                subst hd
+                exact absurd rfl (hne t)
+          simpa [this] using hneg
+        · cases h
+
+example : parseQ "0.001".toList = some ⟨1, 3⟩ ∧ parseQ "1.000".toList = some ⟨1000, 3⟩ ∧
+    parseQ "-0.5".toList = none ∧ parseQ "1.001".toList = none ∧ parseQ "1.".toList = none ∧
+    parseQ "abc".toList = none ∧ parseQ "".toList = none ∧ parseQ "-0".toList = some ⟨0, 0⟩ := by
+  decide
+
+/-- An item is dropped by the loop of `parse_accept_header` exactly when it carries a `q` parameter
+whose (stripped) text fails `_q_value_re` or the range check. -/
+theorem item_dropped_iff (item : Str) (opts : List (Str × Str)) :
+    acceptItem item opts = none ↔
+      ∃ qs, dictGet opts "q".toList = some qs ∧ parseQ (Py.strip qs) = none := by
+  unfold acceptItem
+  cases hq : dictGet opts "q".toList with
+  | none => simp
+  | some qs =>
+    cases hp : parseQ (Py.strip qs) <;> simp [hp]
+
+/-- Items with a malformed or out-of-range q are ignored: removing such an item from the lexed
+header does not change the parsed result (for any class, before and after sorting).
+`_partial`: stated for items whose `q` parameter survived `parse_options_header`; see
+`invalid_q_ignored_full_false` for the inputs this excludes. -/
+theorem invalid_q_ignored_partial (item : Str) (opts : List (Str × Str)) (qs : Str)
+    (hq : dictGet opts "q".toList = some qs) (hbad : parseQ (Py.strip qs) = none)
+    (l1 l2 : List (Str × List (Str × Str))) :
+    acceptItems (l1 ++ (item, opts) :: l2) = acceptItems (l1 ++ l2) := by
+  have : acceptItem item opts = none := (item_dropped_iff item opts).mpr ⟨qs, hq, hbad⟩
+  simp [acceptItems, List.filterMap_append, this]
+
+example : dictGet [("q".toList, "1.5".toList)] "q".toList = some "1.5".toList ∧
+    parseQ (Py.strip "1.5".toList) = none := by decide
+
+/-- the full-strength reading of "items with malformed q are ignored" on header text:
+an element `value;q=<text>` whose q text is not a valid q contributes nothing -/
+def InvalidQIgnoredFull : Prop :=
+  ∀ (value qs : Str), value.all (fun c => isTokChar c || c == '/') = true → qs.all (fun c => c != ',' && c != ';' && c != '"') = true →
+    parseQ (Py.strip qs) = none →
+    (parseAcceptRaw (value ++ ";q=".toList ++ qs)).toOption = some []
+
+/-- Known finding F17b: the full-strength form is false. `text/html;q=` (empty q) is kept with q=1:
+`parse_options_header` drops the unparsable parameter before the q check sees it. -/
+theorem invalid_q_ignored_full_false : ¬ InvalidQIgnoredFull := by
+  intro h
+  have := h "text/html".toList [] (by decide) (by decide) (by decide)
+  revert this
+  decide
+
+/-- the same happens for bad whitespace after `=` -/
+theorem invalid_q_space_kept :
+    (parseAcceptRaw "text/html;q= 0.5".toList).toOption = some [("text/html".toList, Q.one)] := by
+  decide
+
+/-! ## the four classes -/
+
+
+/-- `MIMEAccept`: every generic theorem applies (its specificity tuples are totally ordered by
+Python's tuple comparison, q values by `≤`). Stated here for the selection. -/
+theorem mime_bestMatch_optimal (self : List (Str × Q)) (offers : List Str) (r : Str)
+    (h : bestMatch mimeNeg self offers = some r) :
+    ∃ pre post ci q, offers = pre ++ r :: post ∧ bestSingle mimeNeg self r = some (ci, q) ∧
+      mimeMatches r ci = true ∧ Q.le q Q.zero = false ∧
+      (∀ o ∈ offers, ∀ ci' q', bestSingle mimeNeg self o = some (ci', q') →
+          Q.le q' q = true ∧ (Q.le q q' = true → specLe (mimeSpec ci') (mimeSpec ci) = true)) ∧
+      (∀ o ∈ pre, ∀ ci' q', bestSingle mimeNeg self o = some (ci', q') →
+          Q.le q q' = true → specLe (mimeSpec ci) (mimeSpec ci') = false) := by
+  obtain ⟨pre, post, ci, q, h1, h2, h3, h4, h5⟩ :=
+    bestMatch_optimal mimeNeg specLe_totalPre qle_totalPre self offers r h
+  refine ⟨pre, post, ci, q, h1, h2, ?_, h3, h4, h5⟩
+  have := List.find?_some h2
+  simpa [mimeNeg] using this
+
+/-- `MIMEAccept._value_matches`, concrete facts: `*/*` matches every offer; an item without `/`
+or of the form `*/x` matches nothing; parameters are compared as a multiset and ignored under
+a wildcard subtype. -/
+theorem mime_match_facts :
+    (∀ v, mimeMatches v "*/*".toList = true) ∧
+    (∀ v item, hasSlash item = false → mimeMatches v item = false) ∧
+    (∀ v item, (mimeNorm item).type = star → (mimeNorm item).subtype ≠ star → mimeMatches v item = false) ∧
+    (∀ v item, hasSlash item = true → (mimeNorm item).type ≠ star →
+        (mimeNorm item).type = (mimeNorm v).type → (mimeNorm item).subtype = star →
+        mimeMatches v item = true) ∧
+    (∀ v item, hasSlash item = true → (mimeNorm item).type ≠ star → (mimeNorm item).subtype ≠ star →
+        (mimeNorm v).type ≠ star → (mimeNorm v).subtype ≠ star →
+        (mimeMatches v item = true ↔
+          ((mimeNorm item).type = (mimeNorm v).type ∧ (mimeNorm item).subtype = (mimeNorm v).subtype ∧
+           (mimeNorm item).params.Perm (mimeNorm v).params))) := by
+  refine ⟨?_, ?_, ?_, ?_, ?_⟩
+  · intro v
+    have h : (mimeNorm "*/*".toList).type = star ∧ (mimeNorm "*/*".toList).subtype = star := by decide
+    have h2 : hasSlash "*/*".toList = true := by decide
+    unfold mimeMatches
+    simp only [h2, h.1, h.2]
+    simp
+  · intro v item h
+    simp [mimeMatches, h]
+  · intro v item h1 h2
+    unfold mimeMatches
+    split
+    · rfl
+    · simp [h1, h2]
+  · intro v item h0 h1 h2 h3
+    simp [mimeMatches, h0, h2, h3]
+  · intro v item h0 h1 h2 h3 h4
+    simp [mimeMatches, h0, h1, h2, h3, h4, List.isPerm_iff]
+
+/-- the specificity order of media ranges: `*/*` < `type/*` < `type/subtype` < with parameters -/
+theorem mime_spec_order :
+    mimeSpec "*/*".toList = [false, false] ∧ mimeSpec "text/*".toList = [true, false] ∧
+    mimeSpec "text/html".toList = [true, true] ∧ mimeSpec "text/html; level=1".toList = [true, true, true] ∧
+    specLe [false, false] [true, false] = true ∧ specLe [true, false] [false, false] = false ∧
+    specLe [true, false] [true, true] = true ∧ specLe [true, true] [true, false] = false ∧
+    specLe [true, true] [true, true, true] = true ∧ specLe [true, true, true] [true, true] = false := by
+  decide
+
+/-! ### LanguageAccept -/
+
+/-- what `best_match` of any class guarantees about its result -/
+theorem bestMatch_sound (N : Neg σ κ) (hs : TotalPre N.sle) (hq : TotalPre N.qle)
+    (self : List (Str × κ)) (offers : List Str) (r : Str) (h : bestMatch N self offers = some r) :
+    r ∈ offers ∧ ∃ ci q, (ci, q) ∈ self ∧ N.matches r ci = true ∧ N.qle q N.zero = false := by
+  obtain ⟨pre, post, ci, q, h1, h2, h3, _, _⟩ := bestMatch_optimal N hs hq self offers r h
+  refine ⟨by rw [h1]; simp, ci, q, List.mem_of_find?_eq_some h2, ?_, h3⟩
+  simpa [bestSingle] using List.find?_some h2
+
+/-- Exact stage: when some offer has positive quality under exact (normalised) tag matching,
+`LanguageAccept.best_match` is the generic selection, so `bestMatch_optimal` describes it. -/
+theorem lang_exact_stage (self : List (Str × Q)) (offers : List Str) (r : Str)
+    (h : bestMatch langNeg self offers = some r) : langBestMatch self offers = some r := by
+  simp [langBestMatch, h]
+
+theorem lang_exact_stage_optimal (self : List (Str × Q)) (offers : List Str) (r : Str)
+    (h : bestMatch langNeg self offers = some r) :
+    ∃ pre post ci q, offers = pre ++ r :: post ∧ bestSingle langNeg self r = some (ci, q) ∧
+      Q.le q Q.zero = false ∧
+      (∀ o ∈ offers, ∀ ci' q', bestSingle langNeg self o = some (ci', q') →
+          Q.le q' q = true ∧ (Q.le q q' = true → specLe (baseSpec ci') (baseSpec ci) = true)) ∧
+      (∀ o ∈ pre, ∀ ci' q', bestSingle langNeg self o = some (ci', q') →
+          Q.le q q' = true → specLe (baseSpec ci) (baseSpec ci') = false) :=
+  bestMatch_optimal langNeg specLe_totalPre qle_totalPre self offers r h
+
+/-- Every result of `LanguageAccept.best_match`, including the fallback stages, is one of the
+offers and is justified by a client range of positive quality: the range matches the offer
+exactly, or the range's primary tag is the offer (stage 2), or the offer's primary tag is the
+range (stage 3). In particular a stage-3 result has the matched primary tag — the repaired F17
+(`english-x` for client `en` is impossible). -/
+theorem lang_result_sound (self : List (Str × Q)) (offers : List Str) (r : Str)
+    (h : langBestMatch self offers = some r) :
+    r ∈ offers ∧ ∃ ci q, (ci, q) ∈ self ∧ Q.le q Q.zero = false ∧
+      (langMatches r ci = true ∨ baseMatches r (primaryTag ci) = true ∨
+       langMatches (primaryTag r) ci = true) := by
+  unfold langBestMatch at h
+  split at h
+  · rename_i r1 h1
+    simp only [Option.some.injEq] at h; subst h
+    obtain ⟨hm, ci, q, hin, hmt, hpos⟩ := bestMatch_sound langNeg specLe_totalPre qle_totalPre _ _ _ h1
+    exact ⟨hm, ci, q, hin, hpos, Or.inl hmt⟩
+  · split at h
+    · rename_i r2 h2
+      simp only [Option.some.injEq] at h; subst h
+      obtain ⟨hm, ci, q, hin, hmt, hpos⟩ := bestMatch_sound acceptNeg specLe_totalPre qle_totalPre _ _ _ h2
+      have hin' : (ci, q) ∈ self.map fun it => (primaryTag it.1, it.2) := (mem_sortDesc _).mp hin
+      obtain ⟨it, hit, heq⟩ := List.mem_map.mp hin'
+      simp only [Prod.mk.injEq] at heq
+      refine ⟨hm, it.1, it.2, hit, ?_, Or.inr (Or.inl ?_)⟩
+      · rw [heq.2]; exact hpos
+      · rw [heq.1]; exact hmt
+    · dsimp only at h
+      split at h
+      · rename_i p h3
+        obtain ⟨hm, ci, q, hin, hmt, hpos⟩ := bestMatch_sound langNeg specLe_totalPre qle_totalPre _ _ _ h3
+        cases hf : (offers.zip (offers.map primaryTag)).find? (fun x => x.2 == p) with
+        | none => rw [hf] at h; cases h
+        | some x =>
+          rw [hf] at h
+          simp only [Option.map_some, Option.some.injEq] at h
+          obtain ⟨hx1, hx2, hx3⟩ := zip_map_find primaryTag _ offers x hf
+          subst h
+          have : primaryTag x.1 = p := by rw [← hx2]; simpa using hx3
+          refine ⟨hx1, ci, q, hin, hpos, Or.inr (Or.inr ?_)⟩
+          rw [this]; exact hmt
+      · cases h
+
+example : langBestMatch (mk langNeg [("en".toList, Q.one)]) ["english-x".toList, "en-US".toList]
+    = some "en-US".toList := by decide
+example : langBestMatch (mk langNeg [("en-US".toList, ⟨5, 1⟩), ("en-GB".toList, ⟨9, 1⟩)])
+    ["de".toList, "en".toList] = some "en".toList := by decide
+
+/-- The last stage never fails to map the matched primary tag back to an offer (the `next(...)`
+in the code cannot raise `StopIteration`): the result is `None` exactly when all three stages find
+no offer of positive quality. -/
+theorem lang_none_iff (self : List (Str × Q)) (offers : List Str) :
+    langBestMatch self offers = none ↔
+      bestMatch langNeg self offers = none ∧
+      bestMatch acceptNeg (langFallbackSelf self) offers = none ∧
+      bestMatch langNeg self (offers.map primaryTag) = none := by
+  unfold langBestMatch
+  cases h1 : bestMatch langNeg self offers with
+  | some r => simp
+  | none =>
+    cases h2 : bestMatch acceptNeg (langFallbackSelf self) offers with
+    | some r => simp
+    | none =>
+      cases h3 : bestMatch langNeg self (offers.map primaryTag) with
+      | none => simp [h3]
+      | some p =>
+        simp only [h3, reduceCtorEq, and_false, iff_false]
+        obtain ⟨hm, _⟩ := bestMatch_sound langNeg specLe_totalPre qle_totalPre _ _ _ h3
+        obtain ⟨o, ho, hop⟩ := List.mem_map.mp hm
+        intro hnone
+        simp only [Option.map_eq_none_iff, List.find?_eq_none] at hnone
+        have hz : (o, primaryTag o) ∈ offers.zip (offers.map primaryTag) := by
+          clear hm h1 h2 h3 hnone
+          induction offers with
+          | nil => simp at ho
+          | cons a t ih =>
+            simp only [List.map_cons, List.zip_cons_cons, List.mem_cons]
+            rcases List.mem_cons.mp ho with rfl | ho
+            · left; rfl
+            · right; exact ih ho
+        have := hnone _ hz
+        simp [hop] at this
+
+/-- `CharsetAccept` (for every codec alias table): the generic selection theorem applies. -/
+theorem charset_bestMatch_optimal (aliases : List (Str × Str)) (self : List (Str × Q))
+    (offers : List Str) (r : Str) (h : bestMatch (charsetNeg aliases) self offers = some r) :
+    ∃ pre post ci q, offers = pre ++ r :: post ∧
+      bestSingle (charsetNeg aliases) self r = some (ci, q) ∧ Q.le q Q.zero = false ∧
+      (∀ o ∈ offers, ∀ ci' q', bestSingle (charsetNeg aliases) self o = some (ci', q') →
+          Q.le q' q = true ∧ (Q.le q q' = true → specLe (baseSpec ci') (baseSpec ci) = true)) ∧
+      (∀ o ∈ pre, ∀ ci' q', bestSingle (charsetNeg aliases) self o = some (ci', q') →
+          Q.le q q' = true → specLe (baseSpec ci) (baseSpec ci') = false) :=
+  bestMatch_optimal (charsetNeg aliases) specLe_totalPre qle_totalPre self offers r h
+
+example : bestMatch (charsetNeg [("UTF8".toList, "utf-8".toList), ("utf-8".toList, "utf-8".toList)])
+    (mk (charsetNeg []) [("UTF8".toList, ⟨5, 1⟩)]) ["latin1".toList, "utf-8".toList]
+    = some "utf-8".toList := by decide
+
 end Wz.Props.C17
